@@ -129,8 +129,29 @@ and parse_instr toks : tinstr * string list =
   | t :: _ -> fail ("instr: " ^ t)
   | [] -> fail "instr: eof"
 
+(* "{" (k ":" v)* "}" *)
+let parse_zmap toks =
+  match toks with
+  | "{" :: rest ->
+    let rec go acc = function
+      | "}" :: rest -> (List.rev acc, rest)
+      | t :: rest ->
+        (match String.split_on_char ':' t with
+         | [k; v] -> go ((zi k, zi v) :: acc) rest
+         | _ -> fail ("map entry: " ^ t))
+      | [] -> fail "unterminated map"
+    in
+    go [] rest
+  | _ -> fail "map expected"
+
 let parse_op (line : string) : op =
   match tokenize line with
+  | "varmap" :: rest -> let m, _ = parse_zmap rest in OpVarMap m
+  | "setmap" :: x :: rest -> let m, _ = parse_zmap rest in OpSetMap (ni x, m)
+  | ("permapi" | "permapiom") :: inp :: c :: rest ->
+    let f, rest = parse_bindfn rest in
+    if rest <> [] then fail "trailing tokens after permapi";
+    OpPerMapi (ni inp, (if c = "-" then None else Some (parse_cutoff c)), f)
   | ["var"; v] -> OpVar (zi v)
   | ["pair"; a; b] -> OpPair (zi a, zi b)
   | ["const"; v] -> OpConst (zi v)
@@ -191,6 +212,7 @@ let rec show_val = function
   | VInt z -> string_of_int (int_of_z z)
   | VPair (a, b) -> "(" ^ show_val a ^ "," ^ show_val b ^ ")"
   | VUnit -> "()"
+  | VMap m -> "{" ^ String.concat "," (List.map (fun (k, v) -> string_of_int (int_of_z k) ^ ":" ^ string_of_int (int_of_z v)) m) ^ "}"
 let show_oval = function Some v -> show_val v | None -> "-"
 let show_vals l = "[" ^ String.concat " " (List.map show_val l) ^ "]"
 let b2s b = if b then "1" else "0"
@@ -257,6 +279,7 @@ let show_event = function
   | EvEdgeCb (n, e, v) -> Printf.sprintf "edgecb %s %s %s" (ns n) (ns e) (show_val v)
   | EvExpertRun (n, v) -> Printf.sprintf "exrun %s %s" (ns n) (show_val v)
   | EvObsChange (n, b) -> Printf.sprintf "obschange %s %s" (ns n) (b2s b)
+  | EvPerKeyFn (pk, k) -> Printf.sprintf "perkeyfn %s %d" (ns pk) (int_of_z k)
 
 let show_cutoff _ = "c"
 
